@@ -842,6 +842,12 @@ static void b_open(int kind, int nE, int mode) {
 		KSI_AsyncService_setOption(B.ha, KSI_ASYNC_OPT_MAX_REQUEST_COUNT, (void *)(size_t)8);
 		conf_clear(&B.view); B.ndeliv = B.ndeliv_cb = B.ndeliv_h = 0;
 		for (e = 0; e < MAXE; e++) B.pushed[e] = 0;
+		{
+			/* exactly the endpoints configured now are left */
+			KSI_LIST(KSI_AsyncService) *subs = NULL;
+			if (KSI_AsyncService_getOption(B.ha, KSI_ASYNC_OPT_HA_SUBSERVICE_LIST, (void *)&subs) != KSI_OK || subs == NULL) vf_harness_error("sub-service list");
+			if ((int)KSI_AsyncServiceList_length(subs) != nE) { char m[200]; snprintf(m, sizeof m, "after KSI_AsyncService_setEndpoint and %d addEndpoint call(s) the HA service has %zu sub-services (a former endpoint survived the reset)", nE - 1, (size_t)KSI_AsyncServiceList_length(subs)); conf_fail("ha-reset-keeps-former-endpoint", m); }
+		}
 		b_prime();
 		if (B.ndeliv) conf_fail("conf-delivered-after-reset", "a configuration was delivered right after the HA service was re-pointed, before any of its new endpoints pushed one");
 		conf_clear(&B.view); B.ndeliv = B.ndeliv_cb = B.ndeliv_h = 0;
